@@ -20,7 +20,7 @@ BUILT = {
          "trusted: probe objects expose the handle value unchanged (IdMapping, MmioEndpoint, HartInfoNode, CacheNodeBuilder, ProcessorNode)"),
  "C14": ("tables+aml", "differential monitor across six sink implementations, repeated serialisation, raw in-memory form and u8sum",
          "Each generated object is serialised twice and into Vec, byte-only, all-override, Checksum, Sdt and PackageBuilder sinks; streams must be identical; as_bytes() must equal the serialised stream for every Aml+IntoBytes type (table entries, whole tables, GAS, notification structure, RQSC resource ids, FACS); u8sum must equal the arithmetic sum; thorough adds a Miri stage.",
-         "trusted: harness sinks; Sdt sink skipped above 6 KB (quadratic)"),
+         "trusted: harness sinks; the generic-table sink is fed byte-wise only for objects up to 1.5 KB (its per-byte checksum is quadratic), larger objects reach it through one append; six-sink comparison of AML objects up to 6 KB"),
 
  "C06": ("aml", "online trace checker: independent ACPI-grammar parser over the emitted byte stream, compared with the canonicalised term tree",
          "Random term trees over all 45 exported constructors (native and pre-serialised construction), every length-prefixed kind swept across the 63/64 and 4095/4096 (2^20 in thorough) boundaries singly and nested; the parser consumes all bytes, every PkgLength window is filled exactly, and the recovered tree equals the built one.",
